@@ -1,1 +1,157 @@
+//! Helpers shared by the IoC monitor: running one case in a child process under a watchdog
+//! and deciding, from /proc, whether a child that did not finish is *provably blocked*.
 
+pub mod fam;
+pub mod model;
+
+pub mod proc {
+  use std::io::Read;
+  use std::process::{Command, Stdio};
+  use std::time::{Duration, Instant};
+
+  #[derive(Debug)]
+  pub enum Ending {
+    /// Exited by itself with this code.
+    Exited(i32),
+    /// Killed by a signal it raised itself (SIGSEGV = 11, SIGABRT = 6, ...).
+    Signaled(i32),
+    /// Watchdog expired; every thread of the child was asleep and made no progress at all
+    /// (no CPU tick, no context switch) over the whole observation window.
+    ProvablyBlocked { detail: String },
+    /// Watchdog expired but the child was still doing something (or /proc was unreadable).
+    TimeoutUnknown { detail: String },
+    SpawnFailed(String),
+  }
+
+  #[derive(Debug)]
+  pub struct Outcome {
+    pub ending: Ending,
+    pub stdout: String,
+    pub stderr: String,
+    pub wall_ms: u64,
+  }
+
+  #[derive(Clone, PartialEq, Debug)]
+  struct TaskSnap {
+    tid: u64,
+    state: char,
+    cpu_ticks: u64,
+    ctx_switches: u64,
+  }
+
+  fn snapshot(pid: u32) -> Option<Vec<TaskSnap>> {
+    let mut out = Vec::new();
+    let dir = std::fs::read_dir(format!("/proc/{}/task", pid)).ok()?;
+    for e in dir {
+      let e = e.ok()?;
+      let tid: u64 = e.file_name().to_str()?.parse().ok()?;
+      let stat = std::fs::read_to_string(e.path().join("stat")).ok()?;
+      // "pid (comm) S ppid ..." — comm may contain spaces/parens: split at the last ')'.
+      let rest = &stat[stat.rfind(')')? + 1..];
+      let f: Vec<&str> = rest.split_whitespace().collect();
+      // f[0] = state, f[11] = utime, f[12] = stime (fields 3, 14, 15 of the full line)
+      let state = f.first()?.chars().next()?;
+      let utime: u64 = f.get(11)?.parse().ok()?;
+      let stime: u64 = f.get(12)?.parse().ok()?;
+      let status = std::fs::read_to_string(e.path().join("status")).ok()?;
+      let mut ctx = 0u64;
+      for l in status.lines() {
+        if l.starts_with("voluntary_ctxt_switches") || l.starts_with("nonvoluntary_ctxt_switches") {
+          ctx += l.split(':').nth(1)?.trim().parse::<u64>().ok()?;
+        }
+      }
+      out.push(TaskSnap { tid, state, cpu_ticks: utime + stime, ctx_switches: ctx });
+    }
+    out.sort_by_key(|t| t.tid);
+    Some(out)
+  }
+
+  /// Observes the child for `samples` x `gap`: blocked iff every sample is identical and every
+  /// task is in an interruptible/uninterruptible sleep.
+  fn provably_blocked(pid: u32, samples: usize, gap: Duration) -> (bool, String) {
+    let first = match snapshot(pid) {
+      Some(s) => s,
+      None => return (false, "cannot read /proc".into()),
+    };
+    if first.is_empty() || first.iter().any(|t| t.state != 'S' && t.state != 'D') {
+      return (false, format!("not all tasks asleep: {:?}", first));
+    }
+    for _ in 0..samples {
+      std::thread::sleep(gap);
+      match snapshot(pid) {
+        Some(s) if s == first => {}
+        Some(s) => return (false, format!("tasks progressed: {:?} -> {:?}", first, s)),
+        None => return (false, "cannot read /proc".into()),
+      }
+    }
+    (true, format!("{} task(s) asleep, no cpu tick and no context switch for {:?}: {:?}", first.len(), gap * samples as u32, first))
+  }
+
+  /// Runs `cmd` with piped output; kills it after `watchdog`.
+  pub fn run(mut cmd: Command, watchdog: Duration) -> Outcome {
+    let t0 = Instant::now();
+    cmd.stdin(Stdio::null()).stdout(Stdio::piped()).stderr(Stdio::piped());
+    let mut child = match cmd.spawn() {
+      Ok(c) => c,
+      Err(e) => {
+        return Outcome { ending: Ending::SpawnFailed(e.to_string()), stdout: String::new(), stderr: String::new(), wall_ms: 0 }
+      }
+    };
+    let mut so = child.stdout.take().unwrap();
+    let mut se = child.stderr.take().unwrap();
+    let h1 = std::thread::spawn(move || {
+      let mut b = Vec::new();
+      let _ = so.read_to_end(&mut b);
+      String::from_utf8_lossy(&b).into_owned()
+    });
+    let h2 = std::thread::spawn(move || {
+      let mut b = Vec::new();
+      let _ = se.read_to_end(&mut b);
+      String::from_utf8_lossy(&b).into_owned()
+    });
+    let ending;
+    let mut naps = 0u64;
+    loop {
+      match child.try_wait() {
+        Ok(Some(st)) => {
+          use std::os::unix::process::ExitStatusExt;
+          ending = match (st.code(), st.signal()) {
+            (Some(c), _) => Ending::Exited(c),
+            (None, Some(s)) => Ending::Signaled(s),
+            _ => Ending::Exited(-1),
+          };
+          break;
+        }
+        Ok(None) => {}
+        Err(e) => {
+          ending = Ending::TimeoutUnknown { detail: format!("try_wait: {}", e) };
+          let _ = child.kill();
+          let _ = child.wait();
+          break;
+        }
+      }
+      if t0.elapsed() >= watchdog {
+        let (blocked, detail) = provably_blocked(child.id(), 4, Duration::from_millis(300));
+        // The child may have finished while we were looking.
+        if let Ok(Some(st)) = child.try_wait() {
+          use std::os::unix::process::ExitStatusExt;
+          ending = match (st.code(), st.signal()) {
+            (Some(c), _) => Ending::Exited(c),
+            (None, Some(s)) => Ending::Signaled(s),
+            _ => Ending::Exited(-1),
+          };
+          break;
+        }
+        ending = if blocked { Ending::ProvablyBlocked { detail } } else { Ending::TimeoutUnknown { detail } };
+        let _ = child.kill();
+        let _ = child.wait();
+        break;
+      }
+      naps += 1;
+      std::thread::sleep(Duration::from_micros(if naps < 200 { 500 } else { 5000 }));
+    }
+    let stdout = h1.join().unwrap_or_default();
+    let stderr = h2.join().unwrap_or_default();
+    Outcome { ending, stdout, stderr, wall_ms: t0.elapsed().as_millis() as u64 }
+  }
+}
